@@ -156,6 +156,7 @@ func runWithTwin(s *LSession) {
 	if s.Lvl == "listen" && !(s.Sysex && s.As && s.Tc) && s.Panic == "" {
 		t := *s
 		t.Sysex, t.As, t.Tc = true, true, true
+		t.Prev = []bool{} // the twin is a fresh all-options-on receiver
 		t.Chunks = make([]LChunk, len(s.Chunks))
 		for i, c := range s.Chunks {
 			t.Chunks[i] = LChunk{Dt: c.Dt, Bytes: c.Bytes}
